@@ -18,7 +18,7 @@ Definition cV (m e d : Z) : varg := mkV false (to_bits (dec m e)) (dopt d).
 Definition cB (z d : Z) : varg := mkV true z (dopt d).
 
 Definition n_ := Z.to_nat.
-Definition wCtor k b o l := OCtor k (n_ b) o l.
+Definition wCtor k b (o l : option iarg) := OCtor k (n_ b) o l.
 Definition wDvCtor b o l := ODvCtor (n_ b) o l.
 Definition wGet v k := OGet (n_ v) k.
 Definition wSet v k a := OSet (n_ v) k a.
@@ -29,6 +29,7 @@ Definition wFill v a s e := OFill (n_ v) a s e.
 Definition wSlice v s e := OSlice (n_ v) s e.
 Definition wSubarray v s e := OSubarray (n_ v) s e.
 Definition wReverse v := OReverse (n_ v).
+Definition wSort v := OSort (n_ v).
 Definition wDvGet d k i le := ODvGet (n_ d) k i le.
 Definition wDvSet d k i a le := ODvSet (n_ d) k i a le.
 Definition wBufSlice b s e := OBufSlice (n_ b) s e.
@@ -40,9 +41,16 @@ Inductive ores :=
 | XUndef | XNum (m e : Z) | XBig (z : Z) | XErr (e : err) | XPanic | XOther
 | XNew (len : Z) | XLens (a b c : Z).
 
-(* one step: result, "all canary bytes around every Go-supplied buffer are intact", and a 32-bit
-   polynomial hash of the memory of all buffers (-1: same as at the previous step) *)
-Record sobs := mkO { o_res : ores; o_canary : bool; o_hash : Z }.
+(* one step: result, "all canary bytes around every Go-supplied buffer are intact", a 32-bit
+   polynomial hash of the memory of all buffers (-1: same as at the previous step), and the bit mask
+   of the buffers that ArrayBuffer.Detached() reports as detached *)
+Record sobs := mkO { o_res : ores; o_canary : bool; o_hash : Z; o_det : Z }.
+
+Fixpoint det_mask (bs : list buffer) (w : Z) : Z :=
+  match bs with
+  | [] => 0
+  | b :: r => (if b_det b then w else 0) + det_mask r (2 * w)
+  end.
 
 (* initial buffers are (length, seed) pairs expanded by the same generator on both sides;
    c_final is a 61-bit hash of all memory at the end of the history *)
@@ -86,7 +94,7 @@ Fixpoint first_bad (m : mode) (st : state) (cur : Z) (i : nat) (ops : list op) (
   | o :: ops', s :: obs' =>
       let '(st', r, _) := step m st o in
       let cur' := if o_hash s <? 0 then cur else o_hash s in
-      if res_match (o_res s) r && o_canary s && (hash32 st' =? cur')
+      if res_match (o_res s) r && o_canary s && (hash32 st' =? cur') && (det_mask (bufs st') 1 =? o_det s)
       then first_bad m st' cur' (S i) ops' obs' fin
       else Some i
   | _, _ => Some i
@@ -95,8 +103,19 @@ Fixpoint first_bad (m : mode) (st : state) (cur : Z) (i : nat) (ops : list op) (
 Definition bad (m : mode) (c : tcase) : option nat :=
   first_bad m (init_state c) (hash32 (init_state c)) 0 (c_ops c) (c_obs c) (c_final c).
 
-(* the oracle is S *)
-Definition check_case (c : tcase) : bool := match bad MS c with None => true | Some _ => false end.
+(* the model's own safety: every range touched by reading m of the model is live and inside the
+   regions the operation is entitled to *)
+Fixpoint touches_ok (m : mode) (st : state) (ops : list op) : bool :=
+  match ops with
+  | [] => true
+  | o :: r => let '(st', _, t) := step m st o in forallb (touch_ok (allowed st o)) t && touches_ok m st' r
+  end.
+
+(* the oracle is S; in addition the transcription of goja's arithmetic (MI) and S itself must stay
+   inside the view on this very history *)
+Definition check_case (c : tcase) : bool :=
+  match bad MS c with None => true | Some _ => false end
+  && touches_ok MI (init_state c) (c_ops c) && touches_ok MS (init_state c) (c_ops c).
 
 Fixpoint mismatch_from (i : N) (cs : list tcase) : list N :=
   match cs with
@@ -116,6 +135,7 @@ Fixpoint trace (m : mode) (st : state) (ops : list op) : list (res * list (list 
   end.
 
 Record expect := mkX { first_bad_S : option nat; first_bad_I : option nat;
+                       touches_ok_I : bool; touches_ok_S : bool;
                        step_S : option (res * list (list N) * bool); step_I : option (res * list (list N) * bool) }.
 
 Definition expected (c : tcase) : expect :=
@@ -125,4 +145,4 @@ Definition expected (c : tcase) : expect :=
                         | Some i => nth_error (trace m (init_state c) (c_ops c)) i
                         | None => None
                         end in
-  mkX bs bi (at_ MS) (at_ MI).
+  mkX bs bi (touches_ok MI (init_state c) (c_ops c)) (touches_ok MS (init_state c) (c_ops c)) (at_ MS) (at_ MI).
